@@ -185,6 +185,10 @@ type c20Scenario struct {
 	Cat    string     `json:"category"`
 	Probes []c20Probe `json:"probes"` // in registration order
 	Doc    string     `json:"doc"`
+	// Twin: the first probe is registered through a prioritized list with spare capacity that is also handed to a sibling
+	// instance, which then registers a probe of its own; both instances are built before either is used, and each must
+	// follow the priorities registered on itself.
+	Twin bool `json:"twin,omitempty"`
 }
 
 type c20Ext struct{ f func(m goldmark.Markdown) }
@@ -199,33 +203,59 @@ func (s c20Scenario) String() string {
 	return fmt.Sprintf("%s doc=%q probes(in registration order)=[%s]", s.Cat, s.Doc, strings.Join(parts, " "))
 }
 
+// c20Component builds the probe component of a category.
+func c20Component(cat string, p c20Probe, log *c20Log) util.PrioritizedValue {
+	switch cat {
+	case "block", "block-free":
+		bp := &c20BlockParser{name: p.Name, accept: p.Accept, log: log}
+		if !p.Free {
+			bp.trigger = []byte{'@'}
+		}
+		return util.Prioritized(bp, p.Prio)
+	case "inline":
+		return util.Prioritized(&c20InlineParser{name: p.Name, accept: p.Accept, log: log}, p.Prio)
+	case "paragraph-transformer":
+		return util.Prioritized(&c20ParaTransformer{name: p.Name, log: log}, p.Prio)
+	case "ast-transformer":
+		return util.Prioritized(&c20ASTTransformer{name: p.Name, log: log}, p.Prio)
+	}
+	kinds := []ast.NodeKind{c20InlineKind}
+	if p.Accept { // "Accept" doubles as: also overrides the built-in paragraph renderer
+		kinds = append(kinds, ast.KindParagraph)
+	}
+	return util.Prioritized(&c20NodeRenderer{name: p.Name, kinds: kinds}, p.Prio)
+}
+
+// c20ListOption registers a list of components of a category.
+func c20ListOption(cat string, vals ...util.PrioritizedValue) (parser.Option, renderer.Option) {
+	switch cat {
+	case "block", "block-free":
+		return parser.WithBlockParsers(vals...), nil
+	case "inline":
+		return parser.WithInlineParsers(vals...), nil
+	case "paragraph-transformer":
+		return parser.WithParagraphTransformers(vals...), nil
+	case "ast-transformer":
+		return parser.WithASTTransformers(vals...), nil
+	}
+	return nil, renderer.WithNodeRenderers(vals...)
+}
+
 // c20Build creates the instance with every probe registered through its route, in list order.
-func c20Build(s c20Scenario, log *c20Log) goldmark.Markdown {
+func c20Build(s c20Scenario, log *c20Log) goldmark.Markdown { return c20BuildShared(s, log, nil) }
+
+// c20BuildShared: like c20Build, but the first probe comes in the given shared list (when not nil).
+func c20BuildShared(s c20Scenario, log *c20Log, shared []util.PrioritizedValue) goldmark.Markdown {
 	var newOpts []goldmark.Option
 	var later []func(m goldmark.Markdown)
-	for _, p := range s.Probes {
+	for pi, p := range s.Probes {
 		p := p
 		var po parser.Option
 		var ro renderer.Option
-		switch s.Cat {
-		case "block", "block-free":
-			bp := &c20BlockParser{name: p.Name, accept: p.Accept, log: log}
-			if !p.Free {
-				bp.trigger = []byte{'@'}
-			}
-			po = parser.WithBlockParsers(util.Prioritized(bp, p.Prio))
-		case "inline":
-			po = parser.WithInlineParsers(util.Prioritized(&c20InlineParser{name: p.Name, accept: p.Accept, log: log}, p.Prio))
-		case "paragraph-transformer":
-			po = parser.WithParagraphTransformers(util.Prioritized(&c20ParaTransformer{name: p.Name, log: log}, p.Prio))
-		case "ast-transformer":
-			po = parser.WithASTTransformers(util.Prioritized(&c20ASTTransformer{name: p.Name, log: log}, p.Prio))
-		case "renderer":
-			kinds := []ast.NodeKind{c20InlineKind}
-			if p.Accept { // "Accept" doubles as: also overrides the built-in paragraph renderer
-				kinds = append(kinds, ast.KindParagraph)
-			}
-			ro = renderer.WithNodeRenderers(util.Prioritized(&c20NodeRenderer{name: p.Name, kinds: kinds}, p.Prio))
+		if pi == 0 && shared != nil {
+			po, ro = c20ListOption(s.Cat, shared...)
+		} else {
+			po, ro = c20ListOption(s.Cat, c20Component(s.Cat, p, log))
 		}
 		switch p.Route {
 		case 0:
@@ -345,6 +375,9 @@ func c20Expect(s c20Scenario) (log []string, outContains []string, outLacks []st
 }
 
 func c20RunScenario(s c20Scenario) (string, []string) {
+	if s.Twin {
+		return c20RunTwin(s)
+	}
 	log := &c20Log{}
 	var out bytes.Buffer
 	var desc string
@@ -354,6 +387,47 @@ func c20RunScenario(s c20Scenario) (string, []string) {
 			desc = "Convert returned error: " + err.Error()
 		}
 	})
+	return c20Judge(s, log, &out, desc, pv, st)
+}
+
+// c20RunTwin builds two instances that share the list holding the first probe; the sibling adds a probe "T" of its own.
+func c20RunTwin(s c20Scenario) (string, []string) {
+	log := &c20Log{}
+	shared := make([]util.PrioritizedValue, 0, 8)
+	shared = append(shared, c20Component(s.Cat, s.Probes[0], log))
+	sb := c20Scenario{Cat: s.Cat, Doc: s.Doc, Probes: []c20Probe{s.Probes[0], {Name: "T", Prio: 7, Route: s.Probes[len(s.Probes)-1].Route, Accept: true, Free: s.Probes[0].Free}}}
+	var outA, outB bytes.Buffer
+	var descA, descB string
+	var evA []string
+	pv, st := core.Try(func() {
+		a := c20BuildShared(s, log, shared)
+		b := c20BuildShared(sb, log, shared)
+		if err := a.Convert([]byte(s.Doc), &outA); err != nil {
+			descA = "Convert returned error: " + err.Error()
+		}
+		evA = append([]string(nil), log.events...)
+		log.events = nil
+		if err := b.Convert([]byte(s.Doc), &outB); err != nil {
+			descB = "Convert returned error: " + err.Error()
+		}
+	})
+	if pv != nil {
+		return c20Judge(s, log, &outA, "", pv, st)
+	}
+	evB := log.events
+	log.events = evA
+	if d, ev := c20Judge(s, log, &outA, descA, nil, nil); d != "" {
+		return "first instance of a pair sharing a registration list: " + d, ev
+	}
+	log.events = evB
+	if d, ev := c20Judge(sb, log, &outB, descB, nil, nil); d != "" {
+		return "second instance of a pair sharing a registration list (" + sb.String() + "): " + d, ev
+	}
+	return "", append(evA, evB...)
+}
+
+func c20Judge(s c20Scenario, log *c20Log, outp *bytes.Buffer, desc string, pv any, st []byte) (string, []string) {
+	out := *outp
 	if pv != nil {
 		return fmt.Sprintf("panic: %v\n%s", pv, trimStack(st)), log.events
 	}
@@ -500,6 +574,11 @@ func runC20(c *core.Ctx) {
 							for _, d := range docs {
 								s.Doc = d
 								run(s)
+								if n == 2 {
+									t := s
+									t.Twin = true
+									run(t)
+								}
 							}
 						}
 					}
